@@ -32,6 +32,15 @@ class DRR(MultiQueueScheduler):
         self.flow2class = flow2class
         self.proc = env.process(self.run(env))
 
+    def send_packet(self, packet: Packet):
+        yield from super().send_packet(packet)
+        class_id = self.flow2class(packet.flow_id)
+        if self.class_count[class_id] == 0:
+            # The queue of this class has just emptied: its credit is forgotten
+            # now, not when run() is resumed - a packet of the class arriving
+            # later in this instant starts a new visit in a later round.
+            self.deficit[class_id] = 0.0
+
     def run(self, env: Environment) -> ProcessGenerator:
         while True:
             while self.total_packets > 0:
@@ -56,10 +65,10 @@ class DRR(MultiQueueScheduler):
                         assert class_id == self.flow2class(packet.flow_id)
 
                         if packet.size <= self.deficit[class_id]:
-                            yield env.process(self.send_packet(packet))
                             self.deficit[class_id] -= packet.size
-                            if self.class_count[class_id] == 0:
-                                self.deficit[class_id] = 0.0
+                            # (send_packet forgets the credit the moment the
+                            # class's queue empties)
+                            yield env.process(self.send_packet(packet))
                             self.dprint(f"Deficit reduced to {self.deficit[class_id]} for {class_id}")
                         else:
                             assert not class_id in self.head_of_line
